@@ -178,7 +178,7 @@ let run_chunks () =
 (* well-formedness of the language table as required by the theorems *)
 let run_langwf table =
   let langs = load_lang_table table in
-  Array.iteri (fun i l -> Printf.printf "%d %b\n" i (LexSpec.lang_wf l)) langs
+  Array.iteri (fun i l -> Printf.printf "%d %b\n" i (LexEquiv.lang_wf' l)) langs
 
 (* ---------------- v2 tokenizer ---------------- *)
 let read_lines path =
